@@ -143,7 +143,7 @@ def run_dag_case(v, case, rng, scratch, keys):
                 if fn != set(need):
                     v.count("diag_subpipeline_keeps_other_functions")  # diagnostic: only *invocations* are demanded (call log)
             # (b)/(c) map with output_names / auto_subpipeline
-            for how in (["output_names"] if not cut else []) + ["auto_subpipeline"]:
+            for how in ["output_names", "auto_subpipeline"]:
                 probes.log_clear(log)
                 kw = {"output_names": set(S)}
                 if how == "auto_subpipeline":
@@ -256,30 +256,61 @@ def run_map_case(v, case, rng, scratch, keys):
             v.count(f"pairs:map-{cutmode}")
             if len(need) >= 2 or cut:
                 keys.append(f"{mapgen.signature(case)}|{S}|{sorted(I)}")
-            probes.log_clear(log)
-            kw = {"output_names": set(S)}
             if cut:
-                kw["auto_subpipeline"] = True
-            try:
-                with quiet():
-                    res = pipeline.map(dict(I), run_folder=os.path.join(scratch, "sel"), internal_shapes=ishapes, parallel=False,
-                                       storage="file_array", **kw)
-            except Exception as e:  # noqa: BLE001
-                v.bad(exc_sig(e, f"map-refused/mapspec/{cutmode}"), f"map(output_names={list(S)}, inputs={sorted(I)}) refused: {exc_msg(e)}", **w)
-                continue
-            v.count("maps:mapspec")
-            for o in S:
-                v.count("values_compared")
-                if o not in res or probes.render(res[o].output) != probes.render(env[o]):
-                    v.bad(f"value/mapspec/{cutmode}", f"{o} differs from the full pipeline's value", got=probes.render(res[o].output)[:300] if o in res else None,
-                          expected=probes.render(env[o])[:300], **w)
-            calls = probes.log_read(log)
-            for f in case["funcs"]:
-                got = [c["k"] for c in calls if c["f"] == f["name"]]
-                want = [t for _, t in exp_calls[f["name"]]] if f["name"] in need else []
-                extra, miss = multiset_diff(got, want)
-                if extra or miss:
-                    v.bad(f"calls/mapspec/{cutmode}", f"{f['name']}: extra={extra[:2]} missing={miss[:2]}", **w)
+                # the same request, with OTHER values for the supplied intermediates, aimed at the folder that holds the complete
+                # run (cleanup=False): it may be refused, but it must never be answered with what that run had stored
+                try:
+                    case2 = {**case, "roots": {**case["roots"], **{c: {"axes": list(prod[c]["out_axes"]), "kind": "ndarray"} for c in cut}},
+                             "funcs": [f for f in case["funcs"] if not (set(f["outs"]) & cut)]}
+                    I2 = {**I, **{c: mapgen.variant_inputs({c: env[c]}, "~sub")[c] for c in cut}}
+                    env2, _ = mapgen.oracle(case2, {**inputs, **{c: I2[c] for c in cut}})
+                    probes.log_clear(log)
+                    try:
+                        with quiet():
+                            res2 = pipeline.map(dict(I2), run_folder=os.path.join(scratch, "base"), internal_shapes=ishapes, parallel=False,
+                                                storage="dict", cleanup=False, output_names=set(S), auto_subpipeline=True)
+                    except Exception:  # noqa: BLE001
+                        v.count("resume_of_full_run_with_other_intermediates:refused")
+                    else:
+                        v.count("resume_of_full_run_with_other_intermediates:answered")
+                        for o in S:
+                            if o in env2 and (o not in res2 or probes.render(res2[o].output) != probes.render(env2[o])):
+                                stale = o in res2 and probes.render(res2[o].output) == probes.render(env[o])
+                                v.bad("value/mapspec/full-run-folder-reused" + ("/stale" if stale else ""),
+                                      f"{o}: a request with other supplied intermediates into the folder of the complete run returned "
+                                      f"{'the values stored by that run' if stale else 'a wrong value'}", got=probes.render(res2[o].output)[:300] if o in res2 else None,
+                                      expected=probes.render(env2[o])[:300], **w)
+                                break
+                        # restore the folder for the following requests
+                        with quiet():
+                            pipeline.map(inputs, run_folder=os.path.join(scratch, "base"), internal_shapes=ish, parallel=False, storage="dict")
+                except Exception:  # noqa: BLE001  (the harness could not build the substituted case: not judged)
+                    v.count("resume_of_full_run_with_other_intermediates:not-built")
+            forms = [{"output_names": set(S), "auto_subpipeline": True}, {"output_names": set(S)}] if cut else [{"output_names": set(S)}]
+            for kw in forms:
+                form = "auto" if kw.get("auto_subpipeline") else "plain"
+                probes.log_clear(log)
+                try:
+                    with quiet():
+                        res = pipeline.map(dict(I), run_folder=os.path.join(scratch, "sel"), internal_shapes=ishapes, parallel=False,
+                                           storage="file_array", **kw)
+                except Exception as e:  # noqa: BLE001
+                    v.bad(exc_sig(e, f"map-refused/mapspec/{cutmode}/{form}"), f"map(output_names={list(S)}, inputs={sorted(I)}, {form}) refused: {exc_msg(e)}", **w)
+                    continue
+                v.count("maps:mapspec")
+                v.count(f"maps:mapspec:{cutmode}:{form}")
+                for o in S:
+                    v.count("values_compared")
+                    if o not in res or probes.render(res[o].output) != probes.render(env[o]):
+                        v.bad(f"value/mapspec/{cutmode}", f"{o} differs from the full pipeline's value", got=probes.render(res[o].output)[:300] if o in res else None,
+                              expected=probes.render(env[o])[:300], **w)
+                calls = probes.log_read(log)
+                for f in case["funcs"]:
+                    got = [c["k"] for c in calls if c["f"] == f["name"]]
+                    want = [t for _, t in exp_calls[f["name"]]] if f["name"] in need else []
+                    extra, miss = multiset_diff(got, want)
+                    if extra or miss:
+                        v.bad(f"calls/mapspec/{cutmode}", f"{f['name']}: extra={extra[:2]} missing={miss[:2]}", **w)
 
 
 def run_case(desc):
